@@ -5,6 +5,7 @@ import (
 	"net"
 	"time"
 
+	"github.com/Jigsaw-Code/outline-sdk/transport/shadowsocks"
 	"github.com/Jigsaw-Code/outline-ss-server/verifrt/simnet"
 	"github.com/Jigsaw-Code/outline-ss-server/verifrt/simrt"
 )
@@ -25,6 +26,7 @@ type c06probe struct {
 	postAuth string // "", "bad-address", "bad-chunk", "incomplete"
 	needsTgt bool
 	replayOf int // index of an earlier probe whose bytes are replayed (-1 none)
+	reflect  bool
 	nextTrue int // for truncated streams: the byte the valid stream would continue with (-1 none)
 	key      *Key
 
@@ -81,9 +83,12 @@ func runC06(rc *RunCtx) {
 		addr := socksAddr(fmt.Sprintf("%s:%d", tgtIP, 8000+k))
 		p.behav = G.Draw(3)
 		p.finFrac = G.Draw(10)
-		kind := G.Draw(7)
+		kind := G.Draw(8)
 		if kind == 6 && !(replayOn && k > 0) {
 			kind = 0
+		}
+		if kind == 7 && key.EK.SaltSize() < 20 {
+			kind = 0 // server salts of 16-byte-salt ciphers are not marked
 		}
 		switch kind {
 		case 0: // random bytes
@@ -162,6 +167,10 @@ func runC06(rc *RunCtx) {
 			p.needsTgt = true
 			p.class = "flip-later-chunk"
 			p.desc = fmt.Sprintf("valid header and address, bit flip at %d in a later chunk", off)
+		case 7: // real server output of an earlier connection, presented back (replay cache on or off)
+			p.class = "reflected"
+			p.reflect = true
+			p.desc = fmt.Sprintf("reflected server output (%s)", key.Cipher)
 		case 6: // replay of an earlier probe's bytes (only meaningful if that one authenticated)
 			p.replayOf = G.Draw(k)
 			p.class = "replay"
@@ -227,6 +236,41 @@ func runC06(rc *RunCtx) {
 					simrt.Sleep(T / 50)
 				}
 				simrt.Sleep(T / 50)
+			}
+			if p.reflect {
+				// record what the server sends on an ordinary relayed connection first
+				down := payload(G, 1+G.Draw(200))
+				startTarget(w, tgtIP, 8500+p.k, func(tc *targetConn) {
+					tc.C.Write(down)
+					readAll(tc.C)
+					tc.C.Close()
+				})
+				rcn, err := srv.connect(net.IPv4(198, 18, 2, byte(p.k+1)).To4(), 21500+p.k)
+				if err != nil {
+					p.writeErr = err
+					p.done = true
+					return
+				}
+				enc := newEncoder(p.key)
+				rcn.Write(enc.Chunk(socksAddr(fmt.Sprintf("%s:%d", tgtIP, 8500+p.k))))
+				rd := shadowsocks.NewReader(rcn, p.key.EK)
+				buf := make([]byte, len(down))
+				n := 0
+				for n < len(buf) {
+					m, err := rd.Read(buf[n:])
+					n += m
+					if err != nil {
+						break
+					}
+				}
+				rcn.CloseWrite()
+				readAll(rcn)
+				rcn.Close()
+				p.wire = append([]byte(nil), rcn.Peer().Wrote...)
+				if len(p.wire) < 50 {
+					p.wire = payload(G, 60) // recording failed: fall back to a random probe
+					p.class = "random"
+				}
 			}
 			cc, err := srv.connect(net.IPv4(198, 18, 1, byte(p.k+1)).To4(), 21000+p.k)
 			if err != nil {
